@@ -1,7 +1,823 @@
-//! C14 engine (not yet built).
-use crate::common::{CaseWriter, Opts};
+//! C14 — YAML / TOML / Python / XML / INI manifestation denotes the same data.
+//!
+//! Runs the REAL writers (through the `std.manifest*` builtins of a real evaluator state and
+//! through the CLI format constructors `YamlFormat::cli`, `TomlFormat::cli`, `XmlJsonmlFormat::cli`,
+//! `IniFormat::cli`, `YamlStreamFormat::cli`) and writes
+//!   * `man.tok`    token cases: the text emitted for ONE key / string in each lexical position
+//!                  (cut out of a one-element document) next to the source string; the Lean driver
+//!                  answers with the model's token and with what the independent decoder of that
+//!                  format reads back from the implementation's token;
+//!   * `man.stream` YAML stream framing of opaque documents (`YamlStreamFormat` over `StringFormat`);
+//!   * `man.dom`    acceptance / rejection of values in and outside of each format's domain;
+//!   * `obs.jsonl`  whole documents (source value as JSON + emitted text) for the external parsers
+//!                  driven by checks/props/C14.py (PyYAML, tomllib, ast, xml.etree, configparser).
+use std::{
+	collections::BTreeMap,
+	fs::File,
+	io::{BufWriter, Write},
+};
+
+use jrsonnet_evaluator::{
+	manifest::{ManifestFormat, StringFormat, YamlStreamFormat},
+	trace::PathResolver,
+	val::{ArrValue, NumValue},
+	FileImportResolver, ObjValue, State, Val,
+};
+use jrsonnet_stdlib::{
+	ContextInitializer, IniFormat, TomlFormat, XmlJsonmlFormat, YamlFormat,
+};
+use serde_json::{json, Value};
+
+use crate::common::{guarded, CaseWriter, Opts, Rng};
+
+#[derive(Clone, Debug, PartialEq)]
+enum G {
+	Null,
+	Bool(bool),
+	Num(f64),
+	Str(String),
+	Arr(Vec<G>),
+	Obj(Vec<(String, G)>),
+	Func,
+}
+
+impl G {
+	/// plain JSON (for the Python side); functions only occur in domain cases
+	fn pj(&self) -> Value {
+		match self {
+			G::Null => Value::Null,
+			G::Bool(b) => json!(b),
+			G::Num(n) => json!(n),
+			G::Str(s) => json!(s),
+			G::Arr(xs) => Value::Array(xs.iter().map(G::pj).collect()),
+			G::Obj(kvs) => Value::Object(kvs.iter().map(|(k, v)| (k.clone(), v.pj())).collect()),
+			G::Func => json!({"$func": true}),
+		}
+	}
+	/// tagged JSON (for the Lean driver): object fields as a list of pairs in source order
+	fn lj(&self) -> Value {
+		match self {
+			G::Null => json!({"t":"z"}),
+			G::Bool(b) => json!({"t":"b","b":b}),
+			G::Num(n) => json!({"t":"n","r":format!("{n}")}),
+			G::Str(s) => json!({"t":"s","s":s}),
+			G::Arr(xs) => json!({"t":"a","xs":xs.iter().map(G::lj).collect::<Vec<_>>()}),
+			G::Obj(kvs) => json!({"t":"o","kv":kvs.iter().map(|(k, v)| json!([k, v.lj()])).collect::<Vec<_>>()}),
+			G::Func => json!({"t":"f"}),
+		}
+	}
+	fn size(&self) -> usize {
+		match self {
+			G::Str(s) => 1 + s.chars().count() / 4,
+			G::Arr(xs) => 1 + xs.iter().map(G::size).sum::<usize>(),
+			G::Obj(kvs) => 1 + kvs.iter().map(|(k, v)| 1 + k.chars().count() / 4 + v.size()).sum::<usize>(),
+			_ => 1,
+		}
+	}
+}
+
+struct Env {
+	state: State,
+	ci: ContextInitializer,
+	func: Val,
+}
+
+impl Env {
+	fn new() -> Self {
+		let ci = ContextInitializer::new(PathResolver::new_cwd_fallback());
+		let mut s = State::builder();
+		s.context_initializer(ci.clone())
+			.import_resolver(FileImportResolver::default());
+		let state = s.build();
+		let func = state
+			.evaluate_snippet("<c14>".to_owned(), "function(x) x".to_owned())
+			.expect("function value");
+		Self { state, ci, func }
+	}
+	fn val(&self, g: &G) -> Val {
+		match g {
+			G::Null => Val::Null,
+			G::Bool(b) => Val::Bool(*b),
+			G::Num(n) => Val::Num(NumValue::new(*n).expect("finite")),
+			G::Str(s) => Val::from(s.as_str()),
+			G::Arr(xs) => Val::Arr(ArrValue::eager(xs.iter().map(|x| self.val(x)).collect())),
+			G::Obj(kvs) => {
+				let mut b = ObjValue::builder();
+				for (k, v) in kvs {
+					b.field(k.as_str()).value(self.val(v));
+				}
+				Val::Obj(b.build())
+			}
+			G::Func => self.func.clone(),
+		}
+	}
+	/// evaluate `code` with `std.extVar("v")` bound to `g`; the result must be a string
+	fn std_call(&self, code: &str, g: &G) -> Out {
+		let v = self.val(g);
+		self.ci.add_ext_var("v".into(), v);
+		match guarded(|| self.state.evaluate_snippet("<c14>".to_owned(), code.to_owned())) {
+			Ok(Ok(Val::Str(s))) => Out::Ok(s.to_string()),
+			Ok(Ok(_)) => Out::Err("notstring".into()),
+			Ok(Err(e)) => Out::Err(format!("{}", e.error())),
+			Err(p) => Out::Panic(p),
+		}
+	}
+	fn direct(&self, fmt: &dyn ManifestFormat, g: &G) -> Out {
+		let v = self.val(g);
+		match guarded(|| v.manifest(fmt)) {
+			Ok(Ok(s)) => Out::Ok(s),
+			Ok(Err(e)) => Out::Err(format!("{}", e.error())),
+			Err(p) => Out::Panic(p),
+		}
+	}
+}
+
+#[derive(Clone, Debug)]
+enum Out {
+	Ok(String),
+	Err(String),
+	Panic(String),
+}
+impl Out {
+	fn json(&self) -> Value {
+		match self {
+			Out::Ok(s) => json!({"out": s}),
+			Out::Err(m) => json!({"err": true, "_msg": m}),
+			Out::Panic(p) => json!({"panic": p}),
+		}
+	}
+}
+
+/// one way of calling a writer
+#[derive(Clone, Debug)]
+enum Via {
+	YamlStd { iao: bool, qk: bool },
+	YamlCli { pad: usize },
+	YamlStreamStd { iao: bool, cde: bool, qk: bool },
+	YamlStreamCli { pad: usize },
+	TomlStd { indent: String },
+	TomlCli { pad: usize },
+	Python,
+	PythonVars,
+	XmlStd,
+	XmlCli,
+	IniStd,
+	IniCli,
+}
+impl Via {
+	fn fmt(&self) -> &'static str {
+		match self {
+			Via::YamlStd { .. } | Via::YamlCli { .. } => "yaml",
+			Via::YamlStreamStd { .. } | Via::YamlStreamCli { .. } => "yamlstream",
+			Via::TomlStd { .. } | Via::TomlCli { .. } => "toml",
+			Via::Python => "python",
+			Via::PythonVars => "pyvars",
+			Via::XmlStd | Via::XmlCli => "xml",
+			Via::IniStd | Via::IniCli => "ini",
+		}
+	}
+	fn json(&self) -> Value {
+		match self {
+			Via::YamlStd { iao, qk } => json!({"via":"std","indent_array_in_object":iao,"quote_keys":qk}),
+			Via::YamlCli { pad } => json!({"via":"cli","padding":pad}),
+			Via::YamlStreamStd { iao, cde, qk } => {
+				json!({"via":"std","indent_array_in_object":iao,"c_document_end":cde,"quote_keys":qk})
+			}
+			Via::YamlStreamCli { pad } => json!({"via":"cli","padding":pad,"c_document_end":true}),
+			Via::TomlStd { indent } => json!({"via":"std","indent":indent}),
+			Via::TomlCli { pad } => json!({"via":"cli","padding":pad}),
+			Via::Python | Via::PythonVars | Via::XmlStd | Via::IniStd => json!({"via":"std"}),
+			Via::XmlCli | Via::IniCli => json!({"via":"cli"}),
+		}
+	}
+	fn run(&self, env: &Env, g: &G) -> Out {
+		let b = |x: bool| if x { "true" } else { "false" };
+		match self {
+			Via::YamlStd { iao, qk } => env.std_call(
+				&format!("std.manifestYamlDoc(std.extVar('v'), {}, {})", b(*iao), b(*qk)),
+				g,
+			),
+			Via::YamlCli { pad } => env.direct(&YamlFormat::cli(*pad), g),
+			Via::YamlStreamStd { iao, cde, qk } => env.std_call(
+				&format!(
+					"std.manifestYamlStream(std.extVar('v'), {}, {}, {})",
+					b(*iao),
+					b(*cde),
+					b(*qk)
+				),
+				g,
+			),
+			Via::YamlStreamCli { pad } => env.direct(&YamlStreamFormat::cli(YamlFormat::cli(*pad)), g),
+			Via::TomlStd { indent } => {
+				if indent == "  " {
+					env.std_call("std.manifestToml(std.extVar('v'))", g)
+				} else {
+					env.std_call(
+						&format!("std.manifestTomlEx(std.extVar('v'), {})", serde_json::to_string(indent).unwrap()),
+						g,
+					)
+				}
+			}
+			Via::TomlCli { pad } => env.direct(&TomlFormat::cli(*pad), g),
+			Via::Python => env.std_call("std.manifestPython(std.extVar('v'))", g),
+			Via::PythonVars => env.std_call("std.manifestPythonVars(std.extVar('v'))", g),
+			Via::XmlStd => env.std_call("std.manifestXmlJsonml(std.extVar('v'))", g),
+			Via::XmlCli => env.direct(&XmlJsonmlFormat::cli(), g),
+			Via::IniStd => env.std_call("std.manifestIni(std.extVar('v'))", g),
+			Via::IniCli => env.direct(&IniFormat::cli(), g),
+		}
+	}
+}
+
+// ---------------------------------------------------------------------------------------------
+// hostile strings
+
+/// YAML 1.1 keywords, number / date look-alikes, indicator strings
+const WORDS: &[&str] = &[
+	"", "true", "True", "TRUE", "tRuE", "false", "False", "yes", "Yes", "YES", "no", "No", "NO", "on", "On", "ON",
+	"off", "Off", "OFF", "y", "Y", "n", "N", "null", "Null", "NULL", "nul", "~", ".nan", ".NaN", ".NAN", ".inf",
+	".Inf", "-.inf", "-.INF", "+.inf", "inf", "nan", "NaN", "Infinity", "-", "--", "---", "----", "...", "..",
+	".", "-a", "a-", "---a", "...a", "0", "-0", "1", "-1", "+1", "12", "007", "017", "0o17", "1_000", "_",
+	"__", "_1", "0b1", "0b", "-0b1", "0B1", "0b_", "0b2", "b0", "0x1f", "0x", "-0x1", "-0x", "0X1F", "0xg",
+	"0xdead", "dead", "abcdef", "x0", "1.5", "-1.5", ".5", "5.", "-.5", "1e3", "1E3", "1e-3", "e", "E", "e3",
+	"1e", "e-", "-e", "1e1e", "1.2.3", "1.0e--1", "1_0.5", "1-2", "1-2-3", "2001-01-01", "2001-1-1",
+	"20-1-1", "--1", "1--", "-1-", "1:30", "1:30:00", "190:20:30.15", "<<", "=", "a b", "a: b", "a:b",
+	"a :b", "a #b", "a# b", "#a", "# a", "- a", "-\ta", "? a", "?a", ": a", ":a", "[a]", "[", "]", "{a}", "{",
+	"}", "a,b", ",", "&a", "*a", "!a", "!!str a", "|", "|a", "|-", ">", ">a", "%a", "@a", "`a", "'a'", "'",
+	"''", "\"a\"", "\"", "\"\"", "a\\b", "\\", "\\n", "\\u0041", "a/b", "/", "a.b", "a_b", "key", "Key-1",
+	"a-b_c", " a", "a ", " ", "  ", "\t", "\ta", "a\t", "a=b", "a = b", "[a.b]", "a.b.c", "a\"b", "a'b",
+	"true ", " true", "1 ", "t", "f", "T", "F", "None", "True", "k", "x", "section", "main",
+];
+
+/// single characters: format-hostile ASCII, controls, U+007F, C1, non-ASCII, non-BMP
+const PIECES: &[&str] = &[
+	"\"", "'", "\\", "#", ":", "-", "=", "[", "]", "{", "}", ",", "&", "*", "!", "|", ">", "<", "%", "@", "`",
+	"?", ";", "$", "~", "+", "/", ".", "_", " ", "\t", "\r", "\u{0}", "\u{1}", "\u{8}", "\u{b}", "\u{c}",
+	"\u{1b}", "\u{1f}", "\u{7f}", "\u{80}", "\u{85}", "\u{9f}", "\u{a0}", "\u{e9}", "\u{df}", "\u{65e5}",
+	"\u{2028}", "\u{2029}", "\u{feff}", "\u{fffd}", "\u{ffff}", "\u{1f600}", "\u{10ffff}", "\u{d7ff}",
+	"\u{e000}", "a", "Z", "0", "9", "e", "x", "b", "o", "k",
+];
+
+/// printable, YAML-block-scalar-safe pieces (no controls / U+007F / C1 / LS / PS / BOM / non-characters)
+const SAFE_PIECES: &[&str] = &[
+	"\"", "'", "\\", "#", ":", "-", "=", "[", "]", "{", "}", ",", "&", "*", "!", "|", ">", "<", "%", "@", "`",
+	"?", ";", "~", "+", "/", ".", "_", "a", "Z", "0", "e", "\u{e9}", "\u{65e5}", "\u{1f600}", "\u{a0}", "key: v",
+	"- x", "# c", "---", "...", "true", "1",
+];
+
+fn hostile(rng: &mut Rng, newline: bool) -> String {
+	match rng.below(10) {
+		0..=3 => (*rng.pick(WORDS)).to_string(),
+		4 | 5 => (*rng.pick(PIECES)).to_string(),
+		_ => {
+			let n = 1 + rng.below(5);
+			let mut s = String::new();
+			for _ in 0..n {
+				match rng.below(8) {
+					0 | 1 => s.push_str(*rng.pick(WORDS)),
+					2 if newline => s.push('\n'),
+					_ => s.push_str(*rng.pick(PIECES)),
+				}
+			}
+			s
+		}
+	}
+}
+
+/// a multi-line string of the block-scalar-safe class: 2..4 non-empty lines of printable
+/// characters that neither start nor end with white space, at most one trailing line feed
+fn block_safe(rng: &mut Rng) -> String {
+	let n = 2 + rng.below(3);
+	let mut lines = Vec::new();
+	for _ in 0..n {
+		let k = 1 + rng.below(4);
+		let mut l = String::new();
+		for j in 0..k {
+			if j != 0 && rng.chance(1, 3) {
+				l.push(' ');
+			}
+			l.push_str(*rng.pick(SAFE_PIECES));
+		}
+		lines.push(l);
+	}
+	let mut s = lines.join("\n");
+	if rng.chance(1, 2) {
+		s.push('\n');
+	}
+	s
+}
+
+#[derive(Clone, Copy)]
+struct GenCfg {
+	null: bool,
+	/// strings with a line feed: 0 = none, 1 = only the block-scalar-safe class, 2 = anything
+	multiline: u8,
+	/// keys limited to Python identifiers at the top level (PythonVars)
+	depth: usize,
+}
+
+fn gen_str(rng: &mut Rng, cfg: GenCfg) -> String {
+	match cfg.multiline {
+		1 if rng.chance(1, 6) => block_safe(rng),
+		2 => hostile(rng, true),
+		_ => hostile(rng, false),
+	}
+}
+
+const NUMS: &[f64] = &[
+	0.0, 1.0, -1.0, 42.0, 1.5, -0.25, 0.1, 1e-7, 123456789012.0, 9007199254740991.0, -9007199254740991.0, 2.5e10,
+	3.0e-5, 1e15,
+];
+
+fn gen_val(rng: &mut Rng, depth: usize, cfg: GenCfg) -> G {
+	let top = if depth == 0 { 6 } else { 9 };
+	match rng.below(top) {
+		0 if cfg.null => G::Null,
+		0 | 1 => G::Bool(rng.chance(1, 2)),
+		2 => G::Num(*rng.pick(NUMS)),
+		3 | 4 | 5 => G::Str(gen_str(rng, cfg)),
+		6 => G::Arr((0..rng.below(4)).map(|_| gen_val(rng, depth - 1, cfg)).collect()),
+		_ => gen_obj(rng, depth - 1, cfg),
+	}
+}
+
+fn gen_obj(rng: &mut Rng, depth: usize, cfg: GenCfg) -> G {
+	let n = rng.below(4);
+	let mut kvs: Vec<(String, G)> = Vec::new();
+	for _ in 0..n {
+		// keys never go to block scalars, any hostile string (with line feeds) is fine
+		let k = hostile(rng, true);
+		if kvs.iter().any(|(k2, _)| *k2 == k) {
+			continue;
+		}
+		kvs.push((k, gen_val(rng, depth, cfg)));
+	}
+	G::Obj(kvs)
+}
+
+/// TOML-shaped documents: sections, arrays of tables, inline tables, nested arrays
+fn gen_toml(rng: &mut Rng, depth: usize) -> G {
+	let cfg = GenCfg { null: false, multiline: 2, depth };
+	let n = rng.below(5);
+	let mut kvs: Vec<(String, G)> = Vec::new();
+	for _ in 0..n {
+		let k = hostile(rng, true);
+		if kvs.iter().any(|(k2, _)| *k2 == k) {
+			continue;
+		}
+		let v = match rng.below(8) {
+			0 | 1 if depth > 0 => gen_toml(rng, depth - 1),
+			2 if depth > 0 => G::Arr((0..1 + rng.below(3)).map(|_| gen_toml(rng, depth - 1)).collect()),
+			3 => G::Arr((0..rng.below(4)).map(|_| gen_val(rng, 1, cfg)).collect()),
+			_ => gen_val(rng, depth.min(2), cfg),
+		};
+		kvs.push((k, v));
+	}
+	G::Obj(kvs)
+}
+
+const IDENTS: &[&str] = &["a", "b", "_x", "x1", "Key", "snake_case", "CONST", "t", "v2"];
+const XML_NAMES: &[&str] = &["a", "b", "item", "x-y", "_u", "t1", "Tag", "v.w"];
+
+fn xml_ok(s: &str) -> bool {
+	s.chars().all(|c| matches!(c, '\t' | '\n' | '\r' | '\u{20}'..='\u{d7ff}' | '\u{e000}'..='\u{fffd}' | '\u{10000}'..='\u{10ffff}'))
+}
+fn xml_str(rng: &mut Rng) -> String {
+	loop {
+		let s = hostile(rng, true);
+		if xml_ok(&s) {
+			return s;
+		}
+	}
+}
+fn gen_jsonml(rng: &mut Rng, depth: usize) -> G {
+	let mut xs = vec![G::Str((*rng.pick(XML_NAMES)).to_string())];
+	if rng.chance(2, 3) {
+		let mut kvs: Vec<(String, G)> = Vec::new();
+		for _ in 0..rng.below(3) {
+			let k = (*rng.pick(XML_NAMES)).to_string();
+			if kvs.iter().any(|(k2, _)| *k2 == k) {
+				continue;
+			}
+			let v = match rng.below(6) {
+				0 => G::Num(*rng.pick(NUMS)),
+				1 => G::Bool(rng.chance(1, 2)),
+				_ => G::Str(xml_str(rng)),
+			};
+			kvs.push((k, v));
+		}
+		xs.push(G::Obj(kvs));
+	}
+	for _ in 0..rng.below(4) {
+		if depth > 0 && rng.chance(1, 2) {
+			xs.push(gen_jsonml(rng, depth - 1));
+		} else {
+			xs.push(G::Str(xml_str(rng)));
+		}
+	}
+	G::Arr(xs)
+}
+
+const INI_KEYS: &[&str] = &["a", "key", "k.1", "x-y", "under_score", "UPPER", "a b", "0"];
+const INI_VALS: &[&str] = &[
+	"v", "", "a b", "1", "true", "x=y", "a:b", "a # b", "a ; b", "[x]", "\"q\"", "'q'", "\\", "%(a)s", "\u{e9}\u{65e5}",
+	"\u{1f600}", "a\tb", "0x1f", "yes", "\u{7f}",
+];
+fn gen_ini_body(rng: &mut Rng) -> G {
+	let mut kvs: Vec<(String, G)> = Vec::new();
+	for _ in 0..rng.below(4) {
+		let k = (*rng.pick(INI_KEYS)).to_string();
+		if kvs.iter().any(|(k2, _)| *k2 == k) {
+			continue;
+		}
+		let scalar = |rng: &mut Rng| match rng.below(6) {
+			0 => G::Num(*rng.pick(NUMS)),
+			1 => G::Bool(rng.chance(1, 2)),
+			_ => G::Str((*rng.pick(INI_VALS)).to_string()),
+		};
+		let v = if rng.chance(1, 4) {
+			G::Arr((0..1 + rng.below(3)).map(|_| scalar(rng)).collect())
+		} else {
+			scalar(rng)
+		};
+		kvs.push((k, v));
+	}
+	G::Obj(kvs)
+}
+fn gen_ini(rng: &mut Rng) -> G {
+	let mut top: Vec<(String, G)> = Vec::new();
+	if rng.chance(1, 2) {
+		top.push(("main".into(), gen_ini_body(rng)));
+	}
+	let mut secs: Vec<(String, G)> = Vec::new();
+	for _ in 0..rng.below(4) {
+		let k = (*rng.pick(&["s", "sec 1", "a.b", "DEFAULTS", "x-y", "S"])).to_string();
+		if secs.iter().any(|(k2, _)| *k2 == k) {
+			continue;
+		}
+		secs.push((k, gen_ini_body(rng)));
+	}
+	top.push(("sections".into(), G::Obj(secs)));
+	G::Obj(top)
+}
+
+// ---------------------------------------------------------------------------------------------
+
+fn strip<'a>(out: &'a Out, prefix: &str, suffix: &str) -> Option<&'a str> {
+	match out {
+		Out::Ok(s) => s.strip_prefix(prefix).and_then(|s| s.strip_suffix(suffix)),
+		_ => None,
+	}
+}
+
+struct Obs {
+	f: BufWriter<File>,
+	n: usize,
+}
+impl Obs {
+	fn put(&mut self, via: &Via, g: &G, out: &Out) {
+		// the CLI prints the manifestation followed by a line feed (cmds/jrsonnet: println!)
+		let cli_out;
+		let out = match (via, out) {
+			(
+				Via::YamlCli { .. } | Via::YamlStreamCli { .. } | Via::TomlCli { .. } | Via::XmlCli | Via::IniCli,
+				Out::Ok(s),
+			) => {
+				cli_out = Out::Ok(format!("{s}\n"));
+				&cli_out
+			}
+			_ => out,
+		};
+		let line = json!({"fmt": via.fmt(), "opts": via.json(), "v": g.pj(), "size": g.size(),
+			"res": out.json()});
+		writeln!(self.f, "{line}").expect("obs");
+		self.n += 1;
+	}
+}
 
 pub fn run(opts: &Opts) {
-	let w = CaseWriter::new(&opts.out);
-	w.finish(serde_json::json!({"engine":"c14","cases":0,"rule":"stub"}), &opts.out);
+	let mut w = CaseWriter::new(&opts.out);
+	let mut obs = Obs {
+		f: BufWriter::new(File::create(opts.out.join("obs.jsonl")).expect("obs.jsonl")),
+		n: 0,
+	};
+	let mut rng = Rng::new(opts.seed);
+	let env = Env::new();
+	let mut hist: BTreeMap<String, usize> = BTreeMap::new();
+	let mut bump = |k: &str| *hist.entry(k.to_string()).or_insert(0) += 1;
+	let scale = if opts.thorough() { 8 } else { 1 };
+
+	// ---- 1. token cases -----------------------------------------------------------------
+	let mut strings: Vec<String> = WORDS.iter().map(|s| (*s).to_string()).collect();
+	strings.extend(PIECES.iter().map(|s| (*s).to_string()));
+	for p in PIECES {
+		strings.push(format!("a{p}b"));
+		strings.push(format!("{p}{p}"));
+	}
+	strings.push("a\nb".into());
+	strings.push("a\nb\n".into());
+	strings.push("\n".into());
+	for _ in 0..400 * scale {
+		strings.push(hostile(&mut rng, true));
+	}
+	for _ in 0..40 * scale {
+		strings.push(block_safe(&mut rng));
+	}
+	strings.sort();
+	strings.dedup();
+	let yaml_cli = YamlFormat::cli(2);
+	for s in &strings {
+		let sv = G::Str(s.clone());
+		let key0 = G::Obj(vec![(s.clone(), G::Num(0.0))]);
+		let arr1 = G::Arr(vec![sv.clone()]);
+		let mut tok = |kind: &str, o: Option<&str>, raw: &Out, qk: bool| {
+			let op = json!({"op":"man.tok","kind":kind,"s":s,"qk":qk,"tok":o,"size":s.chars().count()});
+			let ans = match (o, raw) {
+				(Some(t), _) => json!({"out": t, "back": s}),
+				(None, Out::Panic(p)) => json!({"panic": p}),
+				(None, Out::Err(m)) => json!({"err": true, "_msg": m}),
+				(None, Out::Ok(t)) => json!({"unexpected_frame": t}),
+			};
+			w.case(op, ans);
+		};
+		// TOML
+		let o = env.std_call("std.manifestTomlEx(std.extVar('v'), '')", &key0);
+		tok("toml.key", strip(&o, "", " = 0"), &o, false);
+		let o = env.std_call("std.manifestTomlEx(std.extVar('v'), '')", &G::Obj(vec![("k".into(), sv.clone())]));
+		tok("toml.str", strip(&o, "k = ", ""), &o, false);
+		let o = env.std_call(
+			"std.manifestTomlEx(std.extVar('v'), '')",
+			&G::Obj(vec![(s.clone(), G::Obj(vec![("x".into(), G::Num(0.0))]))]),
+		);
+		tok("toml.hdr", strip(&o, "[", "]\nx = 0"), &o, false);
+		let o = env.std_call(
+			"std.manifestTomlEx(std.extVar('v'), '')",
+			&G::Obj(vec![("k".into(), G::Arr(vec![G::Num(1.0), G::Obj(vec![(s.clone(), G::Num(0.0))])]))]),
+		);
+		tok("toml.inl", strip(&o, "k = [\n1,\n{ ", " = 0 }\n]"), &o, false);
+		// YAML
+		for qk in [true, false] {
+			let o = env.std_call(
+				&format!("std.manifestYamlDoc(std.extVar('v'), false, {})", if qk { "true" } else { "false" }),
+				&key0,
+			);
+			tok("yaml.key", strip(&o, "", ": 0"), &o, qk);
+		}
+		let o = env.direct(&yaml_cli, &key0);
+		tok("yaml.key", strip(&o, "", ": 0"), &o, false);
+		let o = env.std_call("std.manifestYamlDoc(std.extVar('v'))", &arr1);
+		tok("yaml.str.std", strip(&o, "- ", ""), &o, true);
+		let o = env.direct(&yaml_cli, &arr1);
+		tok("yaml.str.cli", strip(&o, "- ", ""), &o, false);
+		// Python
+		let o = env.std_call("std.manifestPython(std.extVar('v'))", &sv);
+		tok("py.str", strip(&o, "", ""), &o, false);
+		let o = env.std_call("std.manifestPython(std.extVar('v'))", &key0);
+		tok("py.str", strip(&o, "{", ": 0}"), &o, false);
+		// XML
+		let o = env.std_call("std.escapeStringXML(std.extVar('v'))", &sv);
+		tok("xml.std", strip(&o, "", ""), &o, false);
+		let o = env.std_call("std.manifestXmlJsonml(std.extVar('v'))", &G::Arr(vec![G::Str("a".into()), sv.clone()]));
+		tok("xml.text", strip(&o, "<a>", "</a>"), &o, false);
+		let o = env.std_call(
+			"std.manifestXmlJsonml(std.extVar('v'))",
+			&G::Arr(vec![G::Str("a".into()), G::Obj(vec![("k".into(), sv.clone())])]),
+		);
+		tok("xml.attr", strip(&o, "<a k=\"", "\"></a>"), &o, false);
+		bump("tok.strings");
+	}
+
+	// ---- 2. YAML stream framing over opaque documents -------------------------------------
+	let doc_pool: &[&str] = &["a: 1", "\"x\"", "- 1\n- 2", "|\n  a\n  b", "{}", "null", "---a: 1", "...: 1", "k:\n  - ---\n  - ...", ""];
+	for n in 0..5usize {
+		for rep in 0..(if n == 0 { 1 } else { 6 * scale }) {
+			let docs: Vec<String> = (0..n).map(|_| (*rng.pick(doc_pool)).to_string()).collect();
+			let g = G::Arr(docs.iter().map(|d| G::Str(d.clone())).collect());
+			for (cde, nl, name) in [(true, true, "std"), (false, true, "std"), (true, false, "cli")] {
+				let o = if name == "std" {
+					env.direct(&YamlStreamFormat::std_yaml_stream(StringFormat, cde), &g)
+				} else {
+					env.direct(&YamlStreamFormat::cli(StringFormat), &g)
+				};
+				let op = json!({"op":"man.stream","docs":docs,"cde":cde,"nl":nl,
+					"tok": match &o { Out::Ok(s) => json!(s), _ => Value::Null }, "size": n, "_rep": rep});
+				let ans = match &o {
+					Out::Ok(s) => json!({"out": s, "back": docs}),
+					other => other.json(),
+				};
+				w.case(op, ans);
+				bump("stream");
+			}
+		}
+	}
+
+	// ---- 3. domain: rejection of values outside of a format's domain ------------------------
+	let dom_vias = [
+		Via::YamlStd { iao: false, qk: true },
+		Via::YamlCli { pad: 2 },
+		Via::YamlStreamStd { iao: false, cde: true, qk: true },
+		Via::TomlStd { indent: "  ".into() },
+		Via::TomlCli { pad: 2 },
+		Via::Python,
+		Via::PythonVars,
+		Via::XmlStd,
+		Via::XmlCli,
+		Via::IniStd,
+	];
+	let plain = GenCfg { null: true, multiline: 0, depth: 2 };
+	let mut dom_vals: Vec<G> = vec![
+		G::Null,
+		G::Func,
+		G::Bool(true),
+		G::Num(1.0),
+		G::Str("s".into()),
+		G::Arr(vec![]),
+		G::Obj(vec![]),
+		G::Arr(vec![G::Func]),
+		G::Arr(vec![G::Null]),
+		G::Obj(vec![("a".into(), G::Null)]),
+		G::Obj(vec![("a".into(), G::Func)]),
+		G::Obj(vec![("a".into(), G::Arr(vec![G::Num(1.0), G::Null]))]),
+		G::Obj(vec![("a".into(), G::Arr(vec![G::Obj(vec![("b".into(), G::Null)])]))]),
+		G::Obj(vec![("a".into(), G::Obj(vec![("b".into(), G::Func)]))]),
+		G::Arr(vec![G::Obj(vec![("a".into(), G::Func)])]),
+		// JSONML shapes
+		G::Arr(vec![G::Str("a".into())]),
+		G::Arr(vec![G::Num(1.0)]),
+		G::Arr(vec![G::Str("a".into()), G::Num(1.0)]),
+		G::Arr(vec![G::Str("a".into()), G::Null]),
+		G::Arr(vec![G::Str("a".into()), G::Arr(vec![])]),
+		G::Arr(vec![G::Str("a".into()), G::Obj(vec![]), G::Obj(vec![])]),
+		G::Arr(vec![G::Str("a".into()), G::Obj(vec![("k".into(), G::Func)])]),
+		G::Arr(vec![G::Str("a".into()), G::Obj(vec![("k".into(), G::Null)])]),
+		G::Arr(vec![G::Str("a".into()), G::Arr(vec![G::Str("b".into()), G::Func])]),
+		G::Arr(vec![G::Str("a".into()), G::Str("t".into()), G::Arr(vec![G::Str("b".into())])]),
+		// INI shapes
+		G::Obj(vec![("sections".into(), G::Obj(vec![]))]),
+		G::Obj(vec![("main".into(), G::Obj(vec![("a".into(), G::Num(1.0))])), ("sections".into(), G::Obj(vec![]))]),
+		G::Obj(vec![("main".into(), G::Obj(vec![]))]),
+		G::Obj(vec![("main".into(), G::Num(1.0)), ("sections".into(), G::Obj(vec![]))]),
+		G::Obj(vec![("sections".into(), G::Obj(vec![("s".into(), G::Num(1.0))]))]),
+		G::Obj(vec![("sections".into(), G::Obj(vec![("s".into(), G::Obj(vec![("k".into(), G::Func)]))]))]),
+		G::Obj(vec![("sections".into(), G::Obj(vec![("s".into(), G::Obj(vec![("k".into(), G::Arr(vec![G::Func]))]))]))]),
+		G::Obj(vec![("sections".into(), G::Obj(vec![("s".into(), G::Obj(vec![("k".into(), G::Null)]))]))]),
+	];
+	for _ in 0..60 * scale {
+		let mut g = gen_val(&mut rng, 3, plain);
+		if rng.chance(1, 2) {
+			g = poison(&mut rng, g);
+		}
+		dom_vals.push(g);
+	}
+	for _ in 0..20 * scale {
+		let g = gen_jsonml(&mut rng, 2);
+		dom_vals.push(if rng.chance(1, 2) { poison(&mut rng, g) } else { g });
+		let g = gen_ini(&mut rng);
+		dom_vals.push(if rng.chance(1, 2) { poison(&mut rng, g) } else { g });
+		let g = gen_toml(&mut rng, 2);
+		dom_vals.push(if rng.chance(1, 2) { poison(&mut rng, g) } else { g });
+	}
+	for g in &dom_vals {
+		for via in &dom_vias {
+			let o = via.run(&env, g);
+			let op = json!({"op":"man.dom","fmt":via.fmt(),"v":g.lj(),"size":g.size()});
+			let ans = match &o {
+				Out::Ok(_) => json!({"ok": true}),
+				Out::Err(m) => json!({"ok": false, "_msg": m}),
+				Out::Panic(p) => json!({"panic": p}),
+			};
+			w.case(op, ans);
+			bump(&format!("dom.{}", via.fmt()));
+		}
+	}
+
+	// ---- 4. whole documents for the external parsers -----------------------------------------
+	let n_docs = 150 * scale;
+	let yaml_vias = [
+		Via::YamlStd { iao: false, qk: true },
+		Via::YamlStd { iao: true, qk: true },
+		Via::YamlStd { iao: false, qk: false },
+		Via::YamlStd { iao: true, qk: false },
+		Via::YamlCli { pad: 1 },
+		Via::YamlCli { pad: 2 },
+		Via::YamlCli { pad: 3 },
+		Via::YamlCli { pad: 4 },
+	];
+	let ycfg = GenCfg { null: true, multiline: 1, depth: 3 };
+	for i in 0..n_docs {
+		let g = if i < 40 {
+			// every keyword / look-alike as key and as value, once
+			let ws: Vec<&str> = WORDS.iter().copied().skip(i * 6).take(6).collect();
+			G::Obj(ws.iter().map(|w| ((*w).to_string(), G::Arr(vec![G::Str((*w).to_string())]))).collect())
+		} else {
+			gen_val(&mut rng, 3, ycfg)
+		};
+		for via in &yaml_vias {
+			let o = via.run(&env, &g);
+			obs.put(via, &g, &o);
+			bump("obs.yaml");
+		}
+	}
+	let stream_vias = [
+		Via::YamlStreamStd { iao: false, cde: true, qk: true },
+		Via::YamlStreamStd { iao: true, cde: false, qk: false },
+		Via::YamlStreamStd { iao: false, cde: false, qk: true },
+		Via::YamlStreamStd { iao: true, cde: true, qk: false },
+		Via::YamlStreamCli { pad: 2 },
+		Via::YamlStreamCli { pad: 4 },
+	];
+	for i in 0..n_docs / 3 {
+		let n = if i == 0 { 0 } else { 1 + rng.below(3) };
+		let g = G::Arr((0..n).map(|_| gen_val(&mut rng, 2, ycfg)).collect());
+		for via in &stream_vias {
+			let o = via.run(&env, &g);
+			obs.put(via, &g, &o);
+			bump("obs.yamlstream");
+		}
+	}
+	let toml_vias = [
+		Via::TomlStd { indent: "  ".into() },
+		Via::TomlStd { indent: "".into() },
+		Via::TomlStd { indent: "\t".into() },
+		Via::TomlStd { indent: "    ".into() },
+		Via::TomlCli { pad: 0 },
+		Via::TomlCli { pad: 2 },
+		Via::TomlCli { pad: 4 },
+	];
+	for _ in 0..n_docs {
+		let g = gen_toml(&mut rng, 3);
+		for via in &toml_vias {
+			let o = via.run(&env, &g);
+			obs.put(via, &g, &o);
+			bump("obs.toml");
+		}
+	}
+	let pcfg = GenCfg { null: true, multiline: 2, depth: 3 };
+	for _ in 0..n_docs {
+		let g = gen_val(&mut rng, 3, pcfg);
+		let o = Via::Python.run(&env, &g);
+		obs.put(&Via::Python, &g, &o);
+		bump("obs.python");
+	}
+	for _ in 0..n_docs / 3 {
+		let mut kvs: Vec<(String, G)> = Vec::new();
+		for _ in 0..rng.below(4) {
+			let k = (*rng.pick(IDENTS)).to_string();
+			if kvs.iter().any(|(k2, _)| *k2 == k) {
+				continue;
+			}
+			kvs.push((k, gen_val(&mut rng, 2, pcfg)));
+		}
+		let g = G::Obj(kvs);
+		let o = Via::PythonVars.run(&env, &g);
+		obs.put(&Via::PythonVars, &g, &o);
+		bump("obs.pyvars");
+	}
+	for _ in 0..n_docs {
+		let g = gen_jsonml(&mut rng, 3);
+		for via in [Via::XmlStd, Via::XmlCli] {
+			let o = via.run(&env, &g);
+			obs.put(&via, &g, &o);
+			bump("obs.xml");
+		}
+	}
+	for _ in 0..n_docs / 2 {
+		let g = gen_ini(&mut rng);
+		for via in [Via::IniStd, Via::IniCli] {
+			let o = via.run(&env, &g);
+			obs.put(&via, &g, &o);
+			bump("obs.ini");
+		}
+	}
+	obs.f.flush().expect("flush obs");
+
+	let cases = w.n;
+	w.finish(
+		json!({"engine":"c14","cases":cases,"obs_documents":obs.n,"hist":hist,
+			"rule":"token cases: every keyword/look-alike/hostile character alone, doubled and embedded + seeded compositions, in every lexical position (TOML key/string/header/inline key, YAML key (quoted, bare std, bare CLI) and string (std, CLI), Python string/key, XML text/attribute/std.escapeStringXML); stream framing over 0..4 opaque documents x 3 configurations; domain cases: hand-written shape list + seeded values with a function or null planted at a random position, x 10 writer configurations; whole documents: seeded JSON-like / TOML-shaped / JSONML / INI values x every option combination, parsed by external parsers"}),
+		&opts.out,
+	);
+}
+
+/// plant a function (or null) at a random position of `g`
+fn poison(rng: &mut Rng, g: G) -> G {
+	let bad = if rng.chance(2, 3) { G::Func } else { G::Null };
+	fn go(rng: &mut Rng, g: G, bad: &G) -> G {
+		match g {
+			G::Arr(mut xs) if !xs.is_empty() && rng.chance(3, 4) => {
+				let i = rng.below(xs.len());
+				let x = std::mem::replace(&mut xs[i], G::Null);
+				xs[i] = go(rng, x, bad);
+				G::Arr(xs)
+			}
+			G::Obj(mut kvs) if !kvs.is_empty() && rng.chance(3, 4) => {
+				let i = rng.below(kvs.len());
+				let x = std::mem::replace(&mut kvs[i].1, G::Null);
+				kvs[i].1 = go(rng, x, bad);
+				G::Obj(kvs)
+			}
+			_ => bad.clone(),
+		}
+	}
+	go(rng, g, &bad)
 }
